@@ -88,7 +88,11 @@ func (reg *Reg) ManifestGet(ctx context.Context, r ref.Ref) (manifest.Manifest, 
 	if r.Digest != "" {
 		rCache := r.SetDigest(r.Digest)
 		if m, err := reg.cacheMan.Get(rCache); err == nil {
-			return m, nil
+			if m.GetDescriptor().Digest.String() == r.Digest {
+				return m, nil
+			}
+			// the cached object was edited by the caller it was handed to, it no longer is this digest
+			reg.cacheMan.Delete(rCache)
 		}
 		tagOrDigest = r.Digest
 	} else if r.Tag != "" {
@@ -162,7 +166,11 @@ func (reg *Reg) ManifestHead(ctx context.Context, r ref.Ref) (manifest.Manifest,
 	if r.Digest != "" {
 		rCache := r.SetDigest(r.Digest)
 		if m, err := reg.cacheMan.Get(rCache); err == nil {
-			return m, nil
+			if m.GetDescriptor().Digest.String() == r.Digest {
+				return m, nil
+			}
+			// the cached object was edited by the caller it was handed to, it no longer is this digest
+			reg.cacheMan.Delete(rCache)
 		}
 		tagOrDigest = r.Digest
 	} else if r.Tag != "" {
